@@ -147,10 +147,6 @@ func init() {
 		inQuantifier := func(c *routing.Case) bool { return c.Spec["mediaHygiene"] == "1" }
 		known := func(c *routing.Case) string {
 			switch {
-			case c.Cfg.Router == "curly" && c.Spec["noRootRegex"] == "0":
-				return "F03"
-			case c.Spec["bodyCoherent"] == "0":
-				return "F04"
 			case c.Cfg.Router == "jsr" && strings.Contains(c.Req.Path, "\n"):
 				return "F16"
 			}
@@ -170,10 +166,20 @@ func init() {
 		}); err != nil {
 			return err
 		}
-		for id, w := range map[string]func() bool{"F03": routing.WitnessF03, "F04": routing.WitnessF04, "F16": routing.WitnessF16} {
-			if w() {
-				run.KnownHits[id]++
-			}
+		if routing.WitnessF16() {
+			run.KnownHits["F16"]++
+		}
+		// regression case of the repaired finding F03 (fix 19aa57d): must hold on every run
+		if routing.RegressionF03() {
+			run.AddViolation(report.Violation{Kind: "counterexample",
+				What:  "CurlyRouter answers 404 for /123 although the root /{id:[0-9]+} claims it (the regex of a root-path variable is not evaluated when the WebService is selected; the defect repaired by 19aa57d is back)",
+				Human: "CurlyRouter; services /{name:[a-z]+} (GET '') and /{id:[0-9]+} (GET ''); request GET /123"})
+		}
+		// regression case of the repaired finding F04 (fix e9138e1): must hold on every run
+		if routing.RegressionF04() {
+			run.AddViolation(report.Violation{Kind: "counterexample",
+				What:  "a chunked POST (ContentLength -1, no Content-Length header) with a consumed Content-Type and an unsatisfiable Accept is answered 415 instead of 406 (the defect repaired by e9138e1 is back)",
+				Human: "CurlyRouter; service /u; route POST '' Consumes/Produces application/json; request POST /u Content-Type: application/json, Accept: text/plain, ContentLength=-1"})
 		}
 		return nil
 	}
